@@ -27,10 +27,14 @@ LEVEL_TEXT = {
     "C06": "bounded model checking of handle()'s containment logic around the parser (reduced claim): a message the parser "
            "rejects is neither dispatched nor answered, the requests before it are, and handle() returns Err; serde_json's own "
            "robustness and the listen() worker are outside",
-    "C11": "SMT-decided language equality, on bounded ASCII text shapes, between the real peg grammar (its source text "
+    "C11": "SMT-decided (a) language equality, on bounded ASCII text shapes, between the real peg grammar (its source text "
            "under rust-peg's recognition semantics, re-encoded from /repo on every run) and a fixed reference grammar "
-           "read declaratively; reduced claim: syntactic acceptance, not the duplicate-name rule's every input nor the "
-           "contents of the resulting structure",
+           "read declaratively, and (b) duplicate rejection, naming of duplicated names and order of appearance by symbolic "
+           "execution of IDL::from_token's MIR for every list of 1-4 (thorough: 5) members with arbitrary kinds and names; "
+           "reduced: field types and documentation strings of the resulting structure are not compared",
+    "C19": "SMT-decided, on all paths of each step function's MIR (test01..test11, end) and of the client table: the success reply "
+           "is produced only for the canonical request of a client that is known and in that step, and is produced for it; "
+           "reduced: value comparison and parameter deserialization are free booleans, Start and time-outs are outside",
     "C12": "bounded model checking of the syntax-error position arithmetic (line lookup, column) over all 4-byte texts "
            "and error offsets (reduced claim: totality of the grammar is out of reach)",
     "C14": "bounded model checking of one inductive step of the acceptor (real ThreadPool::execute) from every pool state "
@@ -44,12 +48,21 @@ LEVEL_TEXT = {
 }
 
 
-ENGINE_OF = {"C11": "smt-grammar"}
+ENGINE_OF = {"C11": "smt-grammar", "C19": "smt-mir"}
 TECHNIQUE = {
-    "C11": "z3 (SMT, QF_BV) over a bounded encoding generated from the peg grammar source in /repo: for every text length "
-           "of every registered shape the query `real grammar and reference grammar disagree on some ASCII text` must be "
-           "unsat; a model is a concrete text, replayed through the real IDL::try_from natively before it is reported. "
-           "The translator is validated against the real parser on a corpus on every run",
+    "C19": "z3 (SMT) over a path-by-path symbolic execution of the rustc MIR of the certification service's step functions and "
+           "client table (dumped from /repo on every run), callees replaced by contract models; per path the query `path "
+           "condition and not property` must be unsat; a model is a request shape, replayed against the real server process",
+    "C12": "Kani/CBMC bounded model checking (SAT) of the error-position arithmetic of IDL::try_from over symbolic texts and "
+           "offsets, counterexamples replayed natively; plus z3 queries over a bounded encoding generated from the peg grammar "
+           "source (no repetition can match the empty string: the recogniser terminates)",
+    "C11": "z3 (SMT) over encodings generated from /repo's source on every run: (a) the peg grammar text -> bounded PEG "
+           "recognition tables over symbolic ASCII bytes; for every text length of every registered shape the query `real "
+           "grammar and reference grammar disagree on some text` must be unsat; (b) the rustc MIR of IDL::from_token, executed "
+           "symbolically path by path with contract models for its callees, on member lists with symbolic kinds and names; "
+           "per path `path condition and not property` must be unsat. Models are concrete texts / member lists, replayed "
+           "through the real IDL::try_from natively before they are reported; the grammar translator is validated against "
+           "the real parser on a corpus on every run",
 }
 
 
@@ -83,6 +96,13 @@ def main():
             "kind_free_text": "z3 5.1 (python3-vt) on an encoder written for this repository (smt/): the rust-peg grammar text "
                               "of a per-run copy of /repo -> bounded PEG recognition tables over symbolic ASCII bytes, compared "
                               "with a fixed reference grammar; models replayed natively through the real parser",
+        }, {
+            "name": "smt-mir",
+            "path": "/verif/check",
+            "serves_properties": sorted(k for k in registry.CHECKS if ENGINE_OF.get(k) == "smt-mir"),
+            "kind_free_text": "z3 5.1 on a symbolic executor for rustc MIR written for this repository (smt/mirsym.py): nightly "
+                              "-Zunpretty=mir of a per-run copy of /repo, one function at a time, callees replaced by contract models; "
+                              "models replayed natively against the real code",
         }],
         "checks": [],
         "notes": "exit 0 = every harness of the tier reached SUCCESSFUL with all covers satisfied; exit 1 = a natively "
